@@ -33,6 +33,10 @@ func init() {
 }
 
 func runC09(c *an.Ctx) {
+	dnssvcWiring(c, "C09-R10", func(dst, src string) bool {
+		n := normName(dst) + " " + normName(src)
+		return strings.Contains(n, "limiter") || strings.Contains(n, "ratelimit")
+	}, 1)
 	// ---- C09-R10: builder wiring of the components this property rests on
 	c.Floor("C09-R10", 4)
 	builderWiring(c, "C09-R10", map[string][]string{
